@@ -499,6 +499,7 @@ class Foreign(EngineBase):
         cfg = dict(world or {})
         cfg.setdefault("procfs_flavor", "static")
         cfg["max_acc"] = 20000
+        cfg["kill_zombie_esrch"] = boot["platform"].startswith("openbsd")
         return K.SimKernel(cfg)
 
     def import_psutil(self, scratch, kernel, boot):
@@ -676,8 +677,6 @@ class Foreign(EngineBase):
                 V("C20.no_bare", ftags + [type(e).__name__], "%s raised %r"
                   % (method, e))
         else:
-            if classes == {"other"} and False:
-                pass
             if not faults and plan["state"] == "live" and \
                     plan["pidkind"] == "ordinary":
                 exp = expected_layout(stub, k, platform, method)
@@ -697,6 +696,31 @@ class Foreign(EngineBase):
                         V("C20.layout", ftags + ["fallback"], "%s fallback "
                           "-> %r, proc_info slots say %r" % (method, got,
                                                              exp))
+        # the same object afterwards: while the PID is still listed (as a
+        # zombie) nothing may claim that it is gone
+        if state_end == "zombie" and res["outcome"] != "NSP" and not any(
+                self.fault_class(platform, f) == "nsp" and not f.get("then")
+                for f in fired):
+            stub.faults.clear()
+            for i, g in enumerate(("is_running", "ppid", "send_signal0",
+                                   "is_running")):
+                k.begin_op(2 + i)
+                try:
+                    o = ("value", p.send_signal(0) if g == "send_signal0"
+                         else getattr(p, g)())
+                except BaseException as e:  # noqa: BLE001
+                    if is_harness_exc(e):
+                        raise
+                    o = ("exc", e)
+                k.end_op()
+                if o[0] == "exc" and exc_class(psutil, o[1]) == "NSP":
+                    V("C20.cause", ["NSP", "zombie", "later_call", g],
+                      "after %s, %s() on the same object raised %r but the "
+                      "pid is still listed as a zombie" % (method, g, o[1]))
+                elif g == "is_running" and o == ("value", False):
+                    V("C20.cause", ["NSP", "zombie", "later_call", g],
+                      "after %s, is_running() on the same object is False "
+                      "but the pid is still listed as a zombie" % method)
         return res
 
     @staticmethod
@@ -981,6 +1005,9 @@ Foreign.ASSUMPTIONS = [
     "methods that shell out (Solaris pfiles for UNIX sockets, AIX "
     "procfiles) and OpenBSD exe() (shutil.which on the real PATH) are not "
     "simulated",
+    "OpenBSD kill(2) is modelled the way psutil's own comments describe it: "
+    "a signal sent to a zombie answers ESRCH, the probe kill(pid, 0) "
+    "succeeds; it cannot be calibrated against a real OpenBSD kernel here",
 ]
 Foreign.COMPONENTS = {
     "real": ["psutil/_psbsd.py", "psutil/_psosx.py", "psutil/_pssunos.py",
